@@ -23,8 +23,11 @@ def parseTarget (j : Json) : Option Target := do
 
 def parseOutcome (j : Json) : Option Outcome := do
   let f ← (j.getObjVal? "file").toOption >>= parseFile
-  let e ← getBool j "exit0"
-  pure ⟨f, e⟩
+  match j.getObjVal? "status" with       -- the value spawn_bash returned (exit code, or signal <<< 8)
+  | .ok v => (v.getNat?.toOption).map (Outcome.ofStatus f)
+  | _ => do
+    let e ← getBool j "exit0"
+    pure ⟨f, e⟩
 
 def resultName : Result → String
   | .returned => "returned" | .missing => "missing" | .tooSmall => "toosmall" | .empty => "empty"
